@@ -1,27 +1,45 @@
 #!/bin/sh
-# tools/try_seed.sh <property id> <seed dir> [tier]
+# tools/try_seed.sh <property id> <seed dir> [tier] [check id (default = property id)]
 # 1. in a scratch worktree: patch applies, the 144 repo tests pass, the demo fails with the patch and
-#    passes without; 2. applies the patch to /repo, runs the check (evidence redirected), undoes it.
-id=$1; sd=$2; tier=${3:-quick}
+#    passes without; 2. applies the patch to /repo, runs the check (evidence redirected), undoes it;
+# 3. records everything under /verif/seeded/<id>-<seed>/ (patch.diff, demo.rs, meta.txt, meta.json)
+id=$1; sd=$2; tier=${3:-quick}; chk=${4:-$id}
+name=$(basename $sd)
 wt=/tmp/seedcheck-$$
 git -C /repo worktree add -q $wt HEAD || exit 2
 cd $wt
-res=""
-cp $sd/demo.rs tests_demo_tmp.rs 2>/dev/null
 mkdir -p tests
 cp $sd/demo.rs tests/demo.rs
-if cargo test --offline --test demo >/tmp/seedcheck-$$.log 2>&1; then res="$res demo-passes-without-patch=yes"; else res="$res demo-passes-without-patch=NO"; fi
-if git apply $sd/patch.diff 2>/dev/null; then res="$res applies=yes"; else res="$res applies=NO"; fi
-if cargo test --offline --test demo >/tmp/seedcheck-$$.log 2>&1; then res="$res demo-fails-with-patch=NO"; else res="$res demo-fails-with-patch=yes"; fi
-rm -f tests/demo.rs tests_demo_tmp.rs
-if cargo test --offline --lib 2>&1 | grep -q "144 passed; 0 failed"; then res="$res suite-passes=yes"; else res="$res suite-passes=NO"; fi
+if cargo test --offline --test demo >/dev/null 2>&1; then a=yes; else a=NO; fi
+if git apply $sd/patch.diff 2>/dev/null; then b=yes; else b=NO; fi
+if cargo test --offline --test demo >/dev/null 2>&1; then c=NO; else c=yes; fi
+rm -f tests/demo.rs
+if cargo test --offline --lib 2>&1 | grep -q "144 passed; 0 failed"; then d=yes; else d=NO; fi
 cd /; git -C /repo worktree remove --force $wt
-rm -f /tmp/seedcheck-$$.log
-echo "SEED $id $(basename $sd):$res"
-# now against the checks
+echo "SEED $id $name: demo-passes-without-patch=$a applies=$b demo-fails-with-patch=$c suite-passes=$d"
 git -C /repo apply $sd/patch.diff || { echo "cannot apply to /repo"; exit 2; }
-mkdir -p /tmp/seedrun
-out=$(XMC_OUT=/tmp/seedrun /verif/check $id $tier 2>&1); code=$?
+rm -rf /tmp/seedrun; mkdir -p /tmp/seedrun
+out=$(XMC_OUT=/tmp/seedrun /verif/check $chk $tier 2>&1); code=$?
 git -C /repo checkout -- .
-echo "CHECK $id $tier exit=$code"
-echo "$out" | grep -E "^(VIOLATION|MACHINERY|  key=)" | cut -c1-400 | head -8
+echo "CHECK $chk $tier exit=$code"
+echo "$out" | grep -E "^(VIOLATION|MACHINERY|  key=)" | cut -c1-300 | head -6
+dst=/verif/seeded/$id-$name
+mkdir -p $dst
+cp $sd/patch.diff $sd/demo.rs $dst/
+[ -f $sd/meta.txt ] && cp $sd/meta.txt $dst/
+python3 - "$id" "$name" "$chk" "$tier" "$code" "$a" "$b" "$c" "$d" "$dst" <<PY
+import sys, json, re, os
+id, name, chk, tier, code, a, b, c, d, dst = sys.argv[1:]
+out = """$(echo "$out" | grep -E "^(VIOLATION|MACHINERY|  key=)" | cut -c1-500 | sed 's/\\/\\\\/g; s/"""/'"'"''"'"''"'"'/g')"""
+keys = re.findall(r"key=(\S+) cases=(\d+)", out)
+mp = os.path.join(dst, 'meta.json')
+m = json.load(open(mp)) if os.path.exists(mp) else {}
+m.update({'property': id, 'seed': name,
+  'needs_to_manifest': open(os.path.join(dst,'meta.txt')).read() if os.path.exists(os.path.join(dst,'meta.txt')) else '',
+  'verified_in_scratch_worktree': {'demo_passes_without_patch': a, 'patch_applies_to_HEAD': b, 'demo_fails_with_patch': c, 'repo_suite_144_passes_with_patch': d}})
+runs = m.get('check_runs', [])
+runs = [r for r in runs if not (r['check']==chk and r['tier']==tier)]
+runs.append({'check': chk, 'tier': tier, 'exit': int(code), 'detected': code=='1', 'keys': [{'key':k,'cases':int(n)} for k,n in keys]})
+m['check_runs'] = runs
+json.dump(m, open(mp,'w'), indent=1)
+PY
